@@ -357,6 +357,7 @@ func runCheck(o checkOpts) int {
 		tb = append(tb, t)
 	}
 	tb = append(tb, "govc itself: Go-subset semantics, VC generation, regex->DFA translation (validated differentially against package regexp on every run), SMT solvers z3 4.8.12 / z3 5.1.0 / cvc5 1.0.3")
+	tb = append(tb, "bridging between byte strings and regular languages (engine rules, assumption U1: a byte below 0x80 is the code point itself, a byte from 0x80 up belongs to a non-ASCII code point or decodes to U+FFFD): class-sequence, class-run, first/last-byte and literal-quotient facts are generated from the pattern that defines a language")
 	tb = append(tb, "integers are mathematical; every int operation carries an explicit no-overflow obligation under len(x) < 2^56 for every string/slice")
 	sort.Strings(tb)
 	var lemNames []string
